@@ -161,6 +161,14 @@ class State:
                 self.dead = True
                 raise
             return hit[0]
+        only = self.opts.get('only_names')
+        if only is not None and name not in only:
+            try:
+                self.assume(goal)
+            except PathKill:
+                self.dead = True
+                raise
+            return ob
         OBL_CACHE[key] = (ob, list(self.pc), goal)
         ob.goal = str(goal)[:400]
         ob.detail = detail
